@@ -13,7 +13,7 @@ From SC.Model Require Import Base Num Types Config Case Chrono UiTokens Rx Post 
      RuleFns Rules Format Lexer Api.
 From Coq Require Import Floats.
 From SC.Model Require Import NumF64 Run64 Corr.
-From SC.Proofs Require Import SessionLemmas C01_Parser C01_Rewrite C01.
+From SC.Proofs Require Import SessionLemmas C01_Parser C01_Rewrite C01_NoPanic RegexNeeds C16 C01.
 
 (* lines are separated by LF or CRLF: one more line than there are breaks *)
 Theorem C01_lines : forall x, length (split_lines x []) = S (breaks x).
@@ -137,6 +137,69 @@ Theorem C01_single_token_rule_loops_refuted :
   = [MRet (Some true); MPanic SITE_OUT_OF_FUEL].
 Proof. exact c01_single_token_rule_hangs_model. Qed.
 
+(* ---- panic freedom after the lexer (Proofs/C01_NoPanic.v) ----
+   [safe x]: x returned, or panicked at a site of RESIDUAL = [1701] (the highlight bookkeeping's
+   drain, whose exclusion would need the lexer; see C17).  Hypotheses that remain explicit:
+   the nested evaluator returns (bexec_total: it runs the lexer), the lexed line contains no
+   type-group field listing "FIELD" (st_plain: no configured group does), clock instants in the
+   parsed tree and the variables are within a bound B (ITime +- Duration stays in chrono's range),
+   no variable name can be matched by a Variable token (vars_np).  Everything else - index ranges
+   of matches, field unwraps of every rule function on every pattern of the regenerated rule
+   table (en and tr), unit-chain key arithmetic, the formatter - is proved, for the default
+   configuration and for every configuration reachable through the setters by a history that
+   registers no one-token pattern. *)
+Theorem C01_execute_ast_no_panic : forall (F : Type) (NF : Num F) (bexec : config F -> str -> res (option F))
+    (cfg : config F) (vs : vars F) (a : ast F) (B : Z),
+  bexec_total bexec -> cfg_keys_ok cfg -> (B + 86400 * ast_ops a <= T_MAX)%Z -> ast_in B a -> vars_in B vs ->
+  exists r, execute_ast bexec cfg vs a = Ok r.
+Proof. exact @execute_ast_no_panic. Qed.
+
+Theorem C01_format_result_no_panic : forall (F : Type) (NF : Num F) (cfg : config F) (lang : str) (now_year : Z) (a : ast F),
+  exists r, format_result cfg lang now_year a = Ok r.
+Proof. exact @format_result_no_panic. Qed.
+
+Theorem C01_execute_text_no_panic_default : forall (ck : clock) (lang : str) (vs : vars float) (line : str) st3 (B : Z),
+  bexec_total (basic_execute LX ck) -> vars_np vs ->
+  lexed LX ck default_config lang line = Ok st3 -> st_plain st3 -> vars_in B vs ->
+  (forall st tokens a vs1, post_lexer LX ck default_config lang vs line st3 = Ok (st, tokens) ->
+     parse tokens vs = (PAst a, vs1) -> (B + 86400 * ast_ops a <= T_MAX)%Z /\ ast_in B a) ->
+  safe (execute_text LX ck default_config lang vs line).
+Proof. exact execute_text_no_panic_default. Qed.
+
+Theorem C01_execute_text_no_panic_reachable : forall (ck : clock) (ops : list op) (lang : str) (vs : vars float) (line : str) st3 (B : Z),
+  history_ok ck init_state ops ->
+  let cfg := m_cfg (final_state ck init_state ops) in
+  bexec_total (basic_execute LX ck) -> vars_np vs ->
+  lexed LX ck cfg lang line = Ok st3 -> st_plain st3 -> vars_in B vs ->
+  (forall st tokens a vs1, post_lexer LX ck cfg lang vs line st3 = Ok (st, tokens) ->
+     parse tokens vs = (PAst a, vs1) -> (B + 86400 * ast_ops a <= T_MAX)%Z /\ ast_in B a) ->
+  safe (execute_text LX ck cfg lang vs line).
+Proof. exact execute_text_no_panic_reachable. Qed.
+
+Theorem C01_residual_sites : RESIDUAL = [1701%N].
+Proof. reflexivity. Qed.
+
+(* the side conditions are facts of the regenerated configuration and invariants of every setter *)
+Theorem C01_default_cfg_np : cfg_np default_config.
+Proof. exact default_cfg_np. Qed.
+Theorem C01_step_preserves_np : forall ck m o, cfg_np3 (m_cfg m) -> cfg_np3 (m_cfg (fst (step ck m o))).
+Proof. exact step_preserves_np. Qed.
+
+(* a line of blanks of ANY length produces no token and evaluates to nothing (unbounded; uses the
+   sound regex analysis of Proofs/RegexNeeds.v on the regenerated regexes) *)
+Theorem C01_blank_line_evaluates_to_nothing : forall (F : Type) (NF : Num F) (ck : clock) (cfg : config F) (lang : str) (vs : vars F) (line : str),
+  blank_line line -> cfg_rules_nonempty cfg -> cfg_units_nonempty cfg -> vars_nonempty vs ->
+  execute_text LX ck cfg lang vs line = Ok (None, vs).
+Proof. exact @blank_line_evaluates_to_nothing. Qed.
+
+Print Assumptions C01_execute_ast_no_panic.
+Print Assumptions C01_format_result_no_panic.
+Print Assumptions C01_execute_text_no_panic_default.
+Print Assumptions C01_execute_text_no_panic_reachable.
+Print Assumptions C01_residual_sites.
+Print Assumptions C01_default_cfg_np.
+Print Assumptions C01_step_preserves_np.
+Print Assumptions C01_blank_line_evaluates_to_nothing.
 Print Assumptions C01_fire_mu_exact.
 Print Assumptions C01_rule_loop_terminates.
 Print Assumptions C01_dyn_loop_terminates.
